@@ -275,15 +275,31 @@ def rule_ns_renumber(P):
     fn = g.params[1]
     sp = [n for n in walk_live(g.node) if isinstance(n, ast.Call) and W.call_name(n) == "spawn"]
     s_kw = next((k.value for k in sp[0].keywords if k.arg == "S"), None) if sp else None
-    ok1 = s_kw is not None and norm(s_kw) == f"{fn}(self.S)"
+    ok1 = s_kw is not None and norm(W.deref(g.node, s_kw)) == f"{fn}(self.S)"
     adds = [c for c in _adds(g) if len(c.args) >= 2]
     ok2 = False
     if len(adds) == 1:
         c = adds[0]
-        gen = next((x for x in ast.walk(c) if isinstance(x, ast.GeneratorExp)), None)
-        ok2 = norm(c.args[0]).endswith(".w") and norm(c.args[1]) == f"{fn}({norm(c.args[0])[:-2]}.head)" and gen is not None \
-            and isinstance(gen.elt, ast.IfExp) and norm(gen.elt.test) == f"self.is_terminal({norm(gen.generators[0].target)})" \
-            and norm(gen.elt.body) == norm(gen.generators[0].target) and norm(gen.elt.orelse) == f"{fn}({norm(gen.generators[0].target)})"
+        gen = next((x for x in ast.walk(c) if isinstance(x, (ast.GeneratorExp, ast.ListComp))), None)
+        elt, var, whole = None, None, False
+        if gen is not None and len(gen.generators) == 1 and not gen.generators[0].ifs:
+            elt, var = gen.elt, norm(gen.generators[0].target)
+            whole = norm(gen.generators[0].iter).endswith(".body")
+        else:
+            # the body collected by a loop:  body = []; for y in r.body: body.append(<elt>);  new.add(.., *body)
+            star = [a.value for a in c.args if isinstance(a, ast.Starred) and isinstance(a.value, ast.Name)]
+            if len(star) == 1:
+                aps = [x for x in walk_live(g.node) if isinstance(x, ast.Call) and isinstance(x.func, ast.Attribute) and x.func.attr == "append"
+                       and W.is_name(x.func.value, star[0].id)]
+                if len(aps) == 1 and len(aps[0].args) == 1 and not W.cfacts(g.node, aps[0]) or (len(aps) == 1 and all("is_terminal" not in t for t in W.cfacts(g.node, aps[0]))):
+                    lp = next((a for a in ancestors(aps[0]) if isinstance(a, ast.For)), None)
+                    if lp is not None and isinstance(lp.target, ast.Name):
+                        elt, var = aps[0].args[0], lp.target.id
+                        whole = norm(lp.iter).endswith(".body")
+        head = W.deref(g.node, c.args[1])
+        ok2 = norm(c.args[0]).endswith(".w") and norm(head) == f"{fn}({norm(c.args[0])[:-2]}.head)" and elt is not None and whole \
+            and isinstance(elt, ast.IfExp) and norm(elt.test) == f"self.is_terminal({var})" \
+            and norm(elt.body) == var and norm(elt.orelse) == f"{fn}({var})"
     r.add(g, adds[0] if adds else g.node, ok1 and ok2, "" if ok1 and ok2 else "rename must map the start symbol, every head and exactly the "
           "non-terminal body symbols through f", slots=dict(start_renamed=ok1, rule_renamed=ok2))
     r.min_instances = 2
@@ -338,6 +354,25 @@ def rule_looppair(P):
     esig = {}
     for e in emits:
         esig.setdefault(signature(e), []).append(e)
+    # fan-out taken as the length of a list that the emission pass then walks: counted and emitted coincide by construction
+    by_len = set()
+    for n in walk_live(outer):
+        if isinstance(n, ast.Assign) and W.is_name(n.targets[0], kname):
+            for x in ast.walk(n.value):
+                if isinstance(x, ast.Call) and W.call_name(x) == "len" and len(x.args) == 1 and isinstance(x.args[0], ast.Name):
+                    lst = x.args[0].id
+                    # the list must not change between `K = len(lst)` and the emission loop over it
+                    later = [c for c in walk_live(outer) if isinstance(c, ast.Call) and isinstance(c.func, ast.Attribute) and W.is_name(c.func.value, lst)
+                             and c.func.attr in ("append", "extend", "pop", "remove", "clear", "insert") and W.pos(c) > W.pos(n)]
+                    if not later:
+                        by_len.add(lst)
+    for s, es in list(esig.items()):
+        if len(s[0]) == 1 and s[0][0] in by_len and not s[1]:
+            for e in es:
+                wt = e.args[-1]
+                okw = W.cnorm(f.node, wt, e) == f"1 / {kname}"
+                r.add(f, e, okw, "" if okw else f"weight `{norm(wt)}` is not 1/{kname}", slots=dict(loops=list(s[0]), counted_as=f"len({s[0][0]})"))
+            del esig[s]
     for s, es in esig.items():
         ok = s in csig
         miss = ""
